@@ -10,11 +10,19 @@ pub fn run(seed: u64, tier: &str, out: &mut Out) {
     for _ in 0..n {
         let pool = pools[rng.below(4) as usize];
         let len = rng.below(9);
-        let content: String = (0..len).map(|_| *rng.pick(pool)).collect();
-        if content.starts_with('\u{301}') { continue; }
+        let bare: String = (0..len).map(|_| *rng.pick(pool)).collect();
+        if bare.starts_with('\u{301}') { continue; }
         // only strings whose width is the sum of the character widths
-        let wsum: usize = content.chars().map(|c| c.width().unwrap_or(0)).sum();
-        if wsum != content.width() { continue; }
+        let wsum: usize = bare.chars().map(|c| c.width().unwrap_or(0)).sum();
+        if wsum != bare.width() { continue; }
+        // embedded colour sequences take no columns (each of their characters is one byte, zero columns)
+        let mut content = bare.clone();
+        if rng.chance(1, 4) {
+            let mut at: Vec<usize> = (0..rng.range(1, 2)).map(|_| { let k = rng.below(bare.chars().count() as u64 + 1) as usize; bare.char_indices().nth(k).map_or(bare.len(), |(i, _)| i) }).collect();
+            at.sort(); at.reverse();
+            for a in at { content.insert_str(a, *rng.pick(&["\x1b[32m", "\x1b[0m", "\x1b[1;31m"])); }
+        }
+        if console::measure_text_width(&content) != wsum { continue; }
         let width = *rng.pick(&[0usize, 1, 2, 3, 4, 5, 6, 8, 12]);
         let (al, ach) = *rng.pick(&[("<", "l"), ("^", "c"), (">", "r")]);
         let trunc = rng.chance(1, 2);
@@ -22,16 +30,17 @@ pub fn run(seed: u64, tier: &str, out: &mut Out) {
         let pb = ProgressBar::with_draw_target(Some(1), ProgressDrawTarget::term_like(Box::new(rec.clone())));
         pb.set_style(ProgressStyle::with_template(&format!("[{{msg:{al}{width}{}}}]", if trunc { "!" } else { "" })).unwrap());
         { rec.st.lock().unwrap().ops.clear(); }
-        pb.set_message(content.clone());
+        let (pb2, c2) = (pb.clone(), content.clone());
+        let panicked = std::panic::catch_unwind(std::panic::AssertUnwindSafe(move || pb2.set_message(c2))).is_err();
         let st = rec.st.lock().unwrap();
         let line = st.ops.iter().find_map(|o| if let Op::Str(s) = o { if s.starts_with('[') { Some(s.clone()) } else { None } } else { None }).unwrap_or_default();
         drop(st);
         std::mem::forget(pb);
         let inner: String = { let cs: Vec<char> = line.chars().collect(); if cs.len() >= 2 { cs[1..cs.len() - 1].iter().collect() } else { String::new() } };
-        let got_cols = inner.width();
+        let got_cols = console::measure_text_width(&inner);
         // ASCII-like content (every character one byte and one column): the statement fixes the result exactly
         let plain = content.chars().all(|c| c.len_utf8() == 1 && c.width() == Some(1));
-        let verdict = if wsum <= width {
+        let verdict = if panicked { format!("FAIL panic while drawing content={content:?} width={width} align={ach} trunc={trunc}") } else if wsum <= width {
                 let d = width - wsum; let (l, r) = match ach { "l" => (0, d), "r" => (d, 0), _ => (d / 2, d - d / 2) };
                 if inner == format!("{}{}{}", " ".repeat(l), content, " ".repeat(r)) { "ok".to_string() } else { format!("FAIL pad field of width {width}, content {content:?}: {inner:?}") } }
             else if !trunc { if inner == content { "ok".into() } else { format!("FAIL no-trunc untruncated content changed: {inner:?}") } }
@@ -41,7 +50,14 @@ pub fn run(seed: u64, tier: &str, out: &mut Out) {
                 if inner == want { "ok".into() } else { format!("FAIL trunc content={content:?} width={width} align={ach} got={inner:?} wanted={want:?}") } }
             else if got_cols == width { "ok".into() }
             else { format!("FAIL F11-trunc-by-bytes truncated field has {got_cols} columns, wanted {width}: content={content:?} got={inner:?}") };
-        let glyphs = if content.is_empty() { "-".to_string() } else { content.chars().map(|c| format!("{}:{}:{}", c as u32, c.width().unwrap_or(0), c.len_utf8())).collect::<Vec<_>>().join(",") };
+        let glyphs = if content.is_empty() { "-".to_string() } else {
+            let mut in_seq = false; let mut gs = Vec::new();
+            for c in content.chars() {
+                if c == '\x1b' { in_seq = true; }
+                gs.push(format!("{}:{}:{}", c as u32, if in_seq { 0 } else { c.width().unwrap_or(0) }, c.len_utf8()));
+                if in_seq && c.is_ascii_alphabetic() { in_seq = false; }
+            }
+            gs.join(",") };
         out.emit(&format!("PAD {ach} {} {width} {glyphs}", if trunc { 1 } else { 0 }), &format!("{} ORACLE {verdict}", inner.chars().map(|c| (c as u32).to_string()).collect::<Vec<_>>().join(".")));
     }
 }
